@@ -259,6 +259,13 @@ class _CanonLoops(ast.NodeTransformer):
             t, it, conds, elt = _gen1(st.test.operand.args[0])
             inner = ast.If(test=_and(conds + [elt]), body=[ast.Break()], orelse=[])
             return [ast.copy_location(ast.For(target=t, iter=it, body=[inner], orelse=st.body, type_comment=None), st)]
+        # if any(genexp): raise E / return X   ->   for T in IT: if C: raise E / return X     (leaving at the first hit is the same thing)
+        if isinstance(st, ast.If) and not st.orelse and len(st.body) == 1 and isinstance(st.body[0], (ast.Raise, ast.Return)) \
+                and isinstance(st.test, ast.Call) and isinstance(st.test.func, ast.Name) and st.test.func.id == 'any' \
+                and len(st.test.args) == 1 and not st.test.keywords and _gen1(st.test.args[0]):
+            t, it, conds, elt = _gen1(st.test.args[0])
+            inner = ast.If(test=_and(conds + [elt]), body=[st.body[0]], orelse=[])
+            return [ast.copy_location(ast.For(target=t, iter=it, body=[inner], orelse=[], type_comment=None), st)]
         # if any(genexp): S [else: R]   ->   f = any(genexp); if f: S [else: R]    (then the next form)
         if isinstance(st, ast.If) and isinstance(st.test, ast.Call) and isinstance(st.test.func, ast.Name) and st.test.func.id == 'any' \
                 and len(st.test.args) == 1 and not st.test.keywords and _gen1(st.test.args[0]):
